@@ -33,6 +33,8 @@ type Obligation struct {
 	Output  string
 	Model   map[string]string
 	NAssert int
+	NDecl   int
+	NValueQ int
 }
 
 type VC struct {
@@ -345,7 +347,7 @@ func (vc *VC) zero(t types.Type) string {
 		z := vc.intLit(big.NewInt(0), types.Typ[types.Int])
 		return fmt.Sprintf("(mk-slice 0 %s %s %s)", z, z, z)
 	case *types.Array:
-		return fmt.Sprintf("((as const %s) %s)", vc.sortOf(t), vc.zero(u.Elem()))
+		return vc.constArray(vc.sortOf(t), vc.zero(u.Elem()))
 	case *types.Interface:
 		return "(mk-iface 0 0)"
 	case *types.Struct:
@@ -557,11 +559,16 @@ func (vc *VC) script(o *Obligation, logic string) string {
 	if logic != "" {
 		sb.WriteString("(set-logic " + logic + ")\n")
 	}
-	for _, d := range vc.decls {
+	decls, asserts := vc.decls, vc.asserts
+	if o.NDecl > 0 && o.NDecl <= len(decls) && o.NAssert <= len(asserts) {
+		// only what existed when the obligation was created: later program points are irrelevant
+		decls, asserts = decls[:o.NDecl], asserts[:o.NAssert]
+	}
+	for _, d := range decls {
 		sb.WriteString(d)
 		sb.WriteByte('\n')
 	}
-	for _, a := range vc.asserts {
+	for _, a := range asserts {
 		sb.WriteString("(assert ")
 		sb.WriteString(a)
 		sb.WriteString(")\n")
@@ -578,8 +585,12 @@ func (vc *VC) script(o *Obligation, logic string) string {
 		}
 	}
 	sb.WriteString("(check-sat)\n")
-	if len(vc.valueQ) > 0 {
-		q := append([]string(nil), vc.valueQ...)
+	vq := vc.valueQ
+	if o.NDecl > 0 && o.NValueQ <= len(vq) {
+		vq = vq[:o.NValueQ]
+	}
+	if len(vq) > 0 {
+		q := append([]string(nil), vq...)
 		sort.Strings(q)
 		sb.WriteString("(get-value (" + strings.Join(q, " ") + "))\n")
 	}
@@ -597,5 +608,28 @@ func (vc *VC) addObl(o *Obligation) {
 	o.vc = vc
 	o.Unit = vc.unit
 	o.NAssert = len(vc.asserts)
+	o.NDecl = len(vc.decls)
+	o.NValueQ = len(vc.valueQ)
 	vc.obls = append(vc.obls, o)
+}
+
+// constArray: an array with every element equal to v. cvc5 only accepts literal
+// values as the default of (as const ...), so non-literal defaults get a named
+// array with a quantified definition.
+func (vc *VC) constArray(arrSort, v string) string {
+	if !strings.Contains(v, "lit!") && !strings.Contains(v, "!") {
+		return fmt.Sprintf("((as const %s) %s)", arrSort, v)
+	}
+	key := "constarr:" + arrSort + "|" + v
+	if n, ok := vc.strLits[key]; ok {
+		return n
+	}
+	n := vc.freshConst("zeroarr", arrSort)
+	vc.strLits[key] = n
+	idx := "Int"
+	if vc.isBV() {
+		idx = "(_ BitVec 64)"
+	}
+	vc.assume(fmt.Sprintf("(forall ((i %s)) (! (= (select %s i) %s) :pattern ((select %s i))))", idx, n, v, n))
+	return n
 }
